@@ -5,8 +5,11 @@ import (
 
 	"verifh/nd"
 
+	"github.com/go-i2p/common/data"
 	"github.com/go-i2p/common/key_certificate"
 	"github.com/go-i2p/common/keys_and_cert"
+	"github.com/go-i2p/common/lease"
+	"github.com/go-i2p/common/lease_set2"
 	"github.com/go-i2p/common/offline_signature"
 	"github.com/go-i2p/common/signature"
 )
@@ -192,4 +195,37 @@ func H_C10_LayoutConstructor() {
 	nd.Assert(bytes.Equal(out[cs:384-ss], pad), "layoutctor/padding-between")
 	nd.Assert(bytes.Equal(out[384:391], []byte{5, 0, 4, byte(st >> 8), byte(st), byte(ct >> 8), byte(ct)}), "layoutctor/key-certificate")
 	nd.Assert(pk.Len() == cs && sk.Len() == ss, "layoutctor/declared-sizes-equal-key-lengths")
+}
+
+// H_C10_ValidatorsAgree: the structure validators use the same sizes as the tables: a parsed LeaseSet2 whose single
+// encryption key declares a KNOWN crypto type t and length L (L = size-1, size, size+1, 2*size) passes Validate() exactly
+// when L is the table size of t; NewLeaseSet2 accepts the same (type, length) pairs and no others.
+//
+//verif:props C10 C14
+//verif:witness valid invalid
+func H_C10_ValidatorsAgree() {
+	t := nd.IntRange(0, 7)
+	size, _ := specCrypto(t)
+	L := []int{size - 1, size, size + 1, 2 * size}[nd.IntRange(0, 3)]
+	in, _ := ls2Shape{7, 4, 0, -1, 0, []int{L}, 1, 0}.build()
+	pin(in, 402, 0, byte(t))
+	pin(in, 397, 0, 0) // no flags (reserved bits are a separate Validate() rule)
+	ls, _, err := lease_set2.ReadLeaseSet2(in)
+	if err != nil {
+		return
+	}
+	verr := ls.Validate()
+	if L == size {
+		nd.Cover("valid")
+		nd.Assert(verr == nil, "validators/ls2/table-size-key-validates")
+	} else {
+		nd.Cover("invalid")
+		nd.Assert(verr != nil, "validators/ls2/key-length-not-the-table-size-is-rejected")
+	}
+	dest := ls.Destination()
+	var l lease.Lease2
+	copy(l[:], nd.Bytes(40))
+	_, cerr := lease_set2.NewLeaseSet2(dest, nd.Uint32(), nd.Uint16(), 0, nil, data.Mapping{},
+		[]lease_set2.EncryptionKey{{KeyType: uint16(t), KeyLen: uint16(L), KeyData: nd.Bytes(L)}}, []lease.Lease2{l}, nil)
+	nd.Assert((cerr == nil) == (L == size), "validators/ls2/constructor-accepts-iff-table-size")
 }
